@@ -13,22 +13,40 @@ EXTENDS PropsAll, MCChars, Json
 
 CONSTANTS Alphabet, MaxLen, Limits, Splitters
 
-VARIABLES s, pc, lim, splitter, inpen, i, off, width, st, out, pieces
-vars == <<s, pc, lim, splitter, inpen, i, off, width, st, out, pieces>>
+VARIABLES s, pc, lim, splitter, inpen, i, off, width, st, out, pieces, pts, sk, prev
+vars == <<s, pc, lim, splitter, inpen, i, off, width, st, out, pieces, pts, sk, prev>>
 
 \* the whole typed string as one word (it may end in spaces), carrying a penalty of its own when it is
 \* itself a piece of an earlier split
 Wd == [MkWord(s, 1, Len(s) + 1) EXCEPT !.pen = inpen]
 
 Init == /\ s = <<>> /\ pc = "type" /\ lim = 0 /\ splitter = "none" /\ inpen = 0 /\ i = 1 /\ off = 1 /\ width = 0 /\ st = "T"
-        /\ out = <<>> /\ pieces = <<>>
+        /\ out = <<>> /\ pieces = <<>> /\ pts = <<>> /\ sk = 1 /\ prev = 1
 Type(c) == pc = "type" /\ Len(s) < MaxLen /\ (c = SP => (Len(s) > 0)) /\ s' = Append(s, c)
-           /\ UNCHANGED <<pc, lim, splitter, inpen, i, off, width, st, out, pieces>>
+           /\ UNCHANGED <<pc, lim, splitter, inpen, i, off, width, st, out, pieces, pts, sk, prev>>
 Begin(l, sp, ip) ==
   /\ pc = "type" /\ (\A j \in 1..Len(s) : s[j] = SP => \A j2 \in j..Len(s) : s[j2] = SP)    \* spaces only at the end
   /\ lim' = l /\ splitter' = sp /\ inpen' = ip
-  /\ pieces' = LET wd == [MkWord(s, 1, Len(s) + 1) EXCEPT !.pen = ip] IN SplitWordAt(s, wd, SplitPts(s, wd, sp))
-  /\ pc' = "break" /\ UNCHANGED <<s, i, off, width, st, out>>
+  /\ pts' = LET wd == [MkWord(s, 1, Len(s) + 1) EXCEPT !.pen = ip] IN SetToSortSeq(SplitPts(s, wd, sp), <)
+  /\ pieces' = <<>> /\ sk' = 1 /\ prev' = 1
+  /\ pc' = (IF Len(s) = 0 THEN "break" ELSE "split") /\ UNCHANGED <<s, i, off, width, st, out>>
+\* split_words (word_splitters.rs:176-205), one split point per step: state (prev, remaining split points)
+SplitStep ==
+  /\ pc = "split" /\ sk <= Len(pts)
+  /\ LET idx == pts[sk] IN
+     /\ pieces' = Append(pieces, [a |-> prev, e |-> idx, b |-> idx,
+                                   pen |-> (IF HasDev("split_penalty_always") THEN 1 ELSE IF s[idx - 1] = HY THEN 0 ELSE 1),
+                                   w |-> DW(SubSeq(s, prev, idx - 1))])
+     /\ prev' = idx /\ sk' = sk + 1
+  /\ UNCHANGED <<s, pc, lim, splitter, inpen, i, off, width, st, out, pts>>
+\* `if prev < word.word.len() || prev == 0` : the last piece carries the original whitespace and penalty
+SplitEnd ==
+  /\ pc = "split" /\ sk > Len(pts)
+  /\ pieces' = (IF prev < Wd.e \/ prev = Wd.a
+                THEN Append(pieces, [a |-> prev, e |-> Wd.e, b |-> Wd.b, pen |-> (IF HasDev("split_drops_input_penalty") THEN 0 ELSE Wd.pen),
+                                     w |-> DW(SubSeq(s, prev, Wd.e - 1))])
+                ELSE pieces)
+  /\ pc' = "break" /\ UNCHANGED <<s, lim, splitter, inpen, i, off, width, st, out, pts, sk, prev>>
 \* one iteration of `while let Some((idx, ch)) = char_indices.next()`
 BreakStep ==
   /\ pc = "break" /\ i < Wd.e
@@ -38,13 +56,13 @@ BreakStep ==
           THEN /\ out' = Append(out, [a |-> off, e |-> i, b |-> i, pen |-> 0, w |-> width])
                /\ off' = i /\ width' = W(s[i])
           ELSE width' = width + W(s[i]) /\ UNCHANGED <<off, out>>
-  /\ i' = i + 1 /\ UNCHANGED <<s, pc, lim, splitter, inpen, pieces>>
+  /\ i' = i + 1 /\ UNCHANGED <<s, pc, lim, splitter, inpen, pieces, pts, sk, prev>>
 BreakEnd ==
   /\ pc = "break" /\ i >= Wd.e
   /\ out' = (IF off < Wd.e THEN Append(out, [a |-> off, e |-> Wd.e, b |-> Wd.b, pen |-> Wd.pen, w |-> width]) ELSE out)
-  /\ pc' = "done" /\ UNCHANGED <<s, lim, splitter, inpen, i, off, width, st, pieces>>
-Next == (\E c \in Alphabet : Type(c)) \/ (\E l \in Limits, sp \in Splitters, ip \in {0, 1} : Begin(l, sp, ip)) \/ BreakStep \/ BreakEnd
-Spec == Init /\ [][Next]_vars /\ WF_vars(BreakStep \/ BreakEnd)
+  /\ pc' = "done" /\ UNCHANGED <<s, lim, splitter, inpen, i, off, width, st, pieces, pts, sk, prev>>
+Next == (\E c \in Alphabet : Type(c)) \/ (\E l \in Limits, sp \in Splitters, ip \in {0, 1} : Begin(l, sp, ip)) \/ SplitStep \/ SplitEnd \/ BreakStep \/ BreakEnd
+Spec == Init /\ [][Next]_vars /\ WF_vars(SplitStep \/ SplitEnd \/ BreakStep \/ BreakEnd)
 \* once a call has begun it returns
 Terminates == (pc # "type") ~> (pc = "done")
 
@@ -61,6 +79,9 @@ EvSplit == [ev |-> "split", splitter |-> splitter, s |-> s, words |-> Logged(Wor
 AllOk(cs) == \A j \in 1..Len(cs) : cs[j].ok \/ (PrintT(<<"FAILED", cs[j].p, cs[j].c, cs[j].r>>) /\ FALSE)
 BreakInv == pc = "break" => /\ off <= i /\ st = Pre(SubSeq(s, 1, Wd.e - 1))[i]
                             /\ width = DW(SubSeq(s, off, i - 1)) \/ st # "T"
+\* the split loop refines the operator, and its pieces are contiguous while it runs
+SplitRefines == pc \in {"break", "done"} /\ Len(s) > 0 => pieces = SplitWordAt(s, Wd, SplitPts(s, Wd, splitter))
+SplitInv == pc = "split" => (Len(pieces) = 0 => prev = 1) /\ (Len(pieces) > 0 => pieces[Len(pieces)].e = prev)
 PropBreak == pc = "done" => AllOk(Judge_break(EvBreak))
 PropSplit == pc = "done" => AllOk(Judge_split(EvSplit))
 Emit == pc = "done" => /\ PrintT(<<"REPLAY", ToJson([k |-> "break", kind |-> "apart", s |-> s, lim |-> lim])>>)
